@@ -706,6 +706,7 @@ func (c *updater) buildBackendOAuth(d *backData) {
 
 		// starting here the auth backend should be configured or requests should be denied
 		// AlwaysDeny will be changed to false if the configuration succeed
+		denied := path.AuthExternal.AlwaysDeny
 		path.AuthExternal.AlwaysDeny = true
 
 		if oauth.Value != "oauth2_proxy" && oauth.Value != "oauth2-proxy" {
@@ -717,9 +718,11 @@ func (c *updater) buildBackendOAuth(d *backData) {
 			c.logger.Warn("oauth2_proxy on %v needs Lua json module, install lua-json4 and enable 'external-has-lua' global config", oauth.Source)
 			continue
 		}
-		if authURL := d.mapper.Get(ingtypes.BackAuthURL); authURL.Value != "" {
+		if authURL := config.Get(ingtypes.BackAuthURL); authURL.Value != "" {
+			// the path's own auth-url has precedence: keep what it left on this path,
+			// including the deny of an auth-url that could not be configured
 			c.logger.Warn("ignoring oauth configuration on %v: auth-url was configured and has precedence", authURL.Source)
-			path.AuthExternal.AlwaysDeny = false
+			path.AuthExternal.AlwaysDeny = denied
 			continue
 		}
 		uriPrefix := "/oauth2"
